@@ -338,7 +338,9 @@ func (sp *SAMLServiceProvider) SigningContext() *dsig.SigningContext {
 	defer sp.signingContextMu.Unlock()
 
 	signing := sp.spSigningKeyStoreOverride
-	if signing == nil {
+	if signing == nil && sp.SPSigningKeyStore == nil {
+		// No explicit signing key: fall back to the encryption key, preferring
+		// the one set via SetSPKeyStore (same precedence as getSigningCert).
 		signing = sp.spKeyStoreOverride
 	}
 	var err error
